@@ -31,6 +31,7 @@ from .runner import CaseResult, Part, exc_sig
 from .hollow import HollowSession, hollow_tmgr
 from .c15_hollow import hollow_pmgr, add_pilot
 from .c15_vclock import VClock, DeadlineExceeded, EventFailed, active
+from . import c15_block
 
 import radical.pilot        as rp
 import radical.pilot.states as rps
@@ -146,11 +147,14 @@ def cases(draw, api):
 
 def parts(tier):
     return [Part(api.replace('.', '_'), cases(api), quick=800, thorough=2500)
-            for api in APIS]
+            for api in APIS] + \
+           [Part('blocking_user_callback', c15_block.cases(), quick=150, thorough=600)]
 
 
 def normalise(case):
     """repair a candidate of the minimiser (or reject it)"""
+    if isinstance(case, dict) and case.get('kind') == 'blocking_callback':
+        return case
     try:
         if case['api'] not in APIS or not case['ents']:
             return None
@@ -220,6 +224,8 @@ def _stable_from(segs, awaited, ok, width):
 
 # ------------------------------------------------------------------------------
 def run_case(case):
+    if case.get('kind') == 'blocking_callback':
+        return c15_block.run(case)
     res   = CaseResult()
     api   = case['api']
     kind  = KIND[api]
